@@ -2,7 +2,7 @@
    hold for it too -- the merged unit of a file is shaped and validated (merging appends the drop-ins' entries), its names are NUL-free, and
    everything after loading is the same code. *)
 From QV Require Import Model.Base Generated.Tables Model.Quote Model.Unquote Model.Split Model.PortRange Model.Unit Model.Lex Model.Parser
-  Model.Path Model.Names Model.Convert Model.Process Model.ProcessD Spec.Layout Proofs.Util Proofs.C06 Proofs.C07 Proofs.C07run Proofs.C11 Proofs.C11run
+  Model.Path Model.Names Model.Convert Model.Process Model.ProcessD Spec.Layout Spec.Passthrough Proofs.Util Proofs.C06 Proofs.C07 Proofs.C07run Proofs.C11 Proofs.C11run
   Proofs.C08 Proofs.C06shape Proofs.C06full Proofs.C13names.
 Open Scope N_scope.
 
@@ -88,4 +88,29 @@ Proof.
     destruct (Hord _ _ _ Hf) as [Hnz (f & Hff & _)]. destruct (file_stem_of_name _ _ Hff) as [st Hst].
     assert (Hv : Validated (fst (merge_dropins u' ds))) by (apply merge_dropins_validated; eapply parsed_units_validated; exact Ep).
     exact (convert_no_panic podman exists_path kill_fixed mount_nl _ Hv pth Hnz _ tbl0 f st Hff Hst Hc).
+Qed.
+
+(* ---- C07 for the run with drop-ins: every generated service passes the user's sections of the MERGED unit through ---- *)
+Lemma merge_dropins_nodup ds : forall u, NoDup (map fst u) -> NoDup (map fst (fst (merge_dropins u ds))).
+Proof.
+  induction ds as [|d r IH]; intros u Hu; [exact Hu|]. cbn [merge_dropins].
+  destruct (parse_unit d) as [du|]; [|exact Hu]. apply IH. apply nodup_merge_from. exact Hu.
+Qed.
+
+Theorem trees_every_generated_service_passes_through podman exists_path kill_fixed mount_nl (files : list (str * str * list str)) path svc sp :
+  In (path, ROk svc sp) (snd (process_trees podman exists_path kill_fixed mount_nl true files)) ->
+  exists main ds u0 t, In (path, main, ds) files /\ parse_unit main = Some u0 /\
+    let u := fst (merge_dropins u0 ds) in
+    PassThrough (A_of t) MANAGED t u svc /\ OwnKept t u svc.
+Proof.
+  unfold process_trees. cbv zeta. cbn [snd]. intros H.
+  destruct (convert_all_origin _ _ _ _ _ _ _ _ _ H) as (x & tbl0 & tbl1 & Hx & Hp & Hc).
+  apply (Permutation.Permutation_in _ (Permutation.Permutation_sym (sort_units_perm _))) in Hx.
+  apply in_flat_map in Hx. destruct Hx as [[pth lr] [Hin Hx]]. cbn [snd fst] in Hx.
+  destruct lr as [u i| | |]; try (destruct Hx; fail). destruct Hx as [<-|[]]. cbn [l_path l_unit l_info] in *.
+  apply in_map_iff in Hin. destruct Hin as [[[pth' text] ds] [Heq Hf]]. cbn [fst snd] in Heq. injection Heq as -> Hl.
+  unfold load_tree in Hl. destruct (parse_unit text) as [u'|] eqn:Ep; [|discriminate]. cbv zeta in Hl.
+  destruct (unit_info (fst (merge_dropins u' ds)) pth) as [i'| | |]; try discriminate. injection Hl as Hm Hi. subst u i.
+  exists text, ds, u', (i_type i'). subst path. split; [exact Hf|split; [exact Ep|]].
+  eapply every_run_passes_through; [apply merge_dropins_nodup; eapply parse_nodup; exact Ep|exact Hc].
 Qed.
